@@ -275,9 +275,25 @@ impl<'a> Gen<'a> {
         Some(Expr::Cmp(v, "=", T::Const(self.const_of(info.kind))))
     }
 
+    fn gen_bool(&mut self, sc: &Scope, depth: usize) -> Option<Expr> {
+        if depth == 0 || self.r.chance(1, 3) {
+            return self.gen_atom(sc);
+        }
+        Some(match self.r.below(5) {
+            0 | 1 => Expr::And(Box::new(self.gen_bool(sc, depth - 1)?), Box::new(self.gen_bool(sc, depth - 1)?)),
+            2 | 3 => Expr::Or(Box::new(self.gen_bool(sc, depth - 1)?), Box::new(self.gen_bool(sc, depth - 1)?)),
+            _ => Expr::Not(Box::new(self.gen_bool(sc, depth - 1)?)),
+        })
+    }
+
     pub fn gen_filter(&mut self, sc: &Scope) -> Option<Expr> {
         let a = self.gen_atom(sc)?;
-        let e = match self.r.below(10) {
+        let e = match self.r.below(13) {
+            // a random Boolean tree: negations as operands of && / ||, mixed nesting
+            10 | 11 | 12 => {
+                let t = self.gen_bool(sc, 3)?;
+                if matches!(t, Expr::Cmp(..) | Expr::ArithCmp(..)) { Expr::And(Box::new(Expr::Not(Box::new(a))), Box::new(t)) } else { t }
+            }
             0 | 1 => {
                 let b = self.gen_atom(sc)?;
                 Expr::And(Box::new(a), Box::new(b))
@@ -598,5 +614,5 @@ impl<'a> Gen<'a> {
 }
 
 pub fn random_style(r: &mut Rng) -> Style {
-    Style { abbreviate: r.chance(1, 3), lowercase_keywords: r.chance(1, 4), newlines: r.chance(1, 3), prefixed: r.chance(1, 4) }
+    Style { abbreviate: r.chance(1, 3), lowercase_keywords: r.chance(1, 4), newlines: r.chance(1, 3), prefixed: r.chance(1, 4), min_parens: r.coin() }
 }
